@@ -11,8 +11,14 @@
   eager_syntax_witness
   match_range_witness
   tables_as_modelled
+  prepare_terminates
+  more_fuel_same_result
+  result_unique
+  include_replaced_by_target
+  fallback_iff_missing
+  missing_without_fallback_raises
 -/
-import Genshi.Lemmas.InclPrep
+import Genshi.Lemmas.InclMono
 import Genshi.Gen.Incl
 namespace Genshi.Props.C11
 open Genshi.Incl
@@ -62,14 +68,96 @@ theorem inline_eq_runtime_partial (T : List Name) (files : Files) (hH : inH T fi
     · intro h _; exact h.symm
 
 /-- recursive and mutually recursive includes terminate under the same conditions in both modes:
-one mode runs out of any amount of fuel iff the other does -/
+one mode runs out of any amount of fuel iff the other does, and one mode reaches a result with
+some fuel iff the other reaches it (with the same fuel) -/
 theorem same_termination (T : List Name) (files : Files) (hH : inH T files = true)
     (entry : Name) (kind : Kind) (data : List (Name × Value)) :
-    (∀ fuel, renderInline files entry kind data fuel = .fuel) ↔
-    (∀ fuel, renderRuntime files entry kind data fuel = .fuel) := by
-  constructor <;> intro h fuel
+    ((∀ fuel, renderInline files entry kind data fuel = .fuel) ↔
+     (∀ fuel, renderRuntime files entry kind data fuel = .fuel)) ∧
+    (∀ r, (∃ fuel, renderInline files entry kind data fuel = r ∧ r ≠ .fuel) ↔
+          (∃ fuel, renderRuntime files entry kind data fuel = r ∧ r ≠ .fuel)) := by
+  refine ⟨⟨fun h fuel => ?_, fun h fuel => ?_⟩, fun r => ⟨fun ⟨f, h⟩ => ⟨f, ?_⟩, fun ⟨f, h⟩ => ⟨f, ?_⟩⟩⟩
   · rw [← inline_eq_runtime_partial T files hH]; exact h fuel
   · rw [inline_eq_runtime_partial T files hH]; exact h fuel
+  · rw [← inline_eq_runtime_partial T files hH]; exact h
+  · rw [inline_eq_runtime_partial T files hH]; exact h
+
+/-- with the recursion guard (`inlined`), preparing a template terminates for every file set —
+cyclic, ill-formed or outside the hypothesis: `prepFuel files` always suffices -/
+theorem prepare_terminates (files : Files) (name : Name) (cls : Kind) (c : Cache) :
+    loadInl files name cls c ≠ .fuel :=
+  loadInl_nofuel files name cls c
+
+theorem Le.map {α β : Type} {x x' : Res α} (g : α → β) (h : Le x x') : Le (x.map g) (x'.map g) := by
+  rcases h with h | h
+  · subst h; exact .inl rfl
+  · subst h; exact .inr rfl
+
+/-- fuel is only a bound: a result reached with some fuel is reached with any larger fuel, in
+either mode (no hypothesis on the file set) -/
+theorem more_fuel_same_result (files : Files) (entry : Name) (kind : Kind) (data : List (Name × Value))
+    {f g : Nat} (hfg : f ≤ g) :
+    (∀ r, renderRuntime files entry kind data f = r → r ≠ .fuel → renderRuntime files entry kind data g = r) ∧
+    (∀ r, renderInline files entry kind data f = r → r ≠ .fuel → renderInline files entry kind data g = r) := by
+  have key : ∀ inl : Bool,
+      Le ((loadT inl files entry kind (St.init data)).bind fun r =>
+            (renderL inl files (render inl files f) .full r.1 r.2).map (·.1))
+         ((loadT inl files entry kind (St.init data)).bind fun r =>
+            (renderL inl files (render inl files g) .full r.1 r.2).map (·.1)) := fun inl =>
+    Le.bind (Le.refl _) fun r => Le.map _ (renderL_le inl files (render_le inl files hfg) r.1 .full r.2)
+  constructor
+  · intro r h hr
+    have h1 : Le (renderRuntime files entry kind data f) (renderRuntime files entry kind data g) := key false
+    rcases h1 with h1 | h1
+    · exact absurd (h.symm.trans h1) hr
+    · exact h1.symm.trans h
+  · intro r h hr
+    have h1 : Le (renderInline files entry kind data f) (renderInline files entry kind data g) := key true
+    rcases h1 with h1 | h1
+    · exact absurd (h.symm.trans h1) hr
+    · exact h1.symm.trans h
+
+/-- hence each mode defines at most one result -/
+theorem result_unique (files : Files) (entry : Name) (kind : Kind) (data : List (Name × Value))
+    {f g : Nat} {r r' : Res (List Ev)}
+    (h : renderRuntime files entry kind data f = r) (hr : r ≠ .fuel)
+    (h' : renderRuntime files entry kind data g = r') (hr' : r' ≠ .fuel) : r = r' := by
+  rcases Nat.le_total f g with hfg | hfg
+  · exact ((more_fuel_same_result files entry kind data hfg).1 r h hr).symm.trans h'
+  · exact (((more_fuel_same_result files entry kind data hfg).1 r' h' hr').symm.trans h).symm
+
+/-! ## what an include means (run-time semantics; by `inline_eq_runtime_partial` the inline mode
+produces the same events for whole templates) -/
+
+/-- the include element is replaced by the events of its target (`r1.1`), which is evaluated in
+the including template's context at that point (`st`: data, loop variables, macros, match
+templates), and the rest of the includer continues in the context the target leaves behind
+(`r1.2`: the target's macros and match templates reach the includer from that point on); the
+fallback plays no role when the target exists -/
+theorem include_replaced_by_target (files : Files) (J : RJ) (rng : Rng) (st : St)
+    (h : List Char) (cls : Kind) (hasFb : Bool) (fb : List Node) (pos name : Name) (body rest : List Node)
+    (hres : resolve pos h = some name) (hfind : files.find name = some ⟨cls, some body⟩) :
+    renderL false files J rng (.include (.static h) cls hasFb fb pos :: rest) st =
+      (J .full body st).bind fun r1 =>
+        (renderL false files J rng rest r1.2).bind fun r2 => .ok (r1.1 ++ r2.1, r2.2) := by
+  rw [renderL_cons, renderN_include]
+  simp [evalHref, hres, loadT, loadRaw, hfind]
+
+/-- fallback content is used exactly when the target is missing -/
+theorem fallback_iff_missing (files : Files) (J : RJ) (rng : Rng) (st : St)
+    (h : List Char) (cls : Kind) (fb : List Node) (pos name : Name)
+    (hres : resolve pos h = some name) (hfind : files.find name = none) :
+    renderN false files J rng (.include (.static h) cls true fb pos) st = renderL false files J .full fb st := by
+  rw [renderN_include]
+  simp [evalHref, hres, loadT, loadRaw, hfind]
+
+/-- a missing target without fallback raises the not-found error -/
+theorem missing_without_fallback_raises (files : Files) (J : RJ) (rng : Rng) (st : St)
+    (h : List Char) (cls : Kind) (fb : List Node) (pos name : Name)
+    (hres : resolve pos h = some name) (hfind : files.find name = none) :
+    renderN false files J rng (.include (.static h) cls false fb pos) st = .err .notFound := by
+  rw [renderN_include]
+  simp [evalHref, hres, loadT, loadRaw, hfind]
 
 /-! ## the code's tables the model is written against (regenerated from the code on every run)
 
